@@ -102,6 +102,9 @@ func cmdSweep(args []string) {
 	sel := func(o *Obl) bool { return hasProp(o, pset) }
 	start := time.Now()
 	fns := selectFuncs(*fnPat)
+	if *fnPat == "@scope" {
+		fns = scopeFuncs()
+	}
 	var results []*FuncResult
 	for _, fn := range fns {
 		if why := excluded(fn); why != "" {
@@ -183,11 +186,14 @@ func indent(s string) string {
 	return "    " + strings.ReplaceAll(s, "\n", "\n    ")
 }
 
+var dumpLen = 400
+
 func cmdDump(args []string) {
 	fs := flag.NewFlagSet("dump", flag.ExitOnError)
 	fnPat := fs.String("fn", "", "function name")
 	repo := fs.String("repo", "", "repository directory")
 	ssaDump := fs.Bool("ssa", false, "print SSA")
+	fs.IntVar(&dumpLen, "len", 400, "goal print length")
 	fs.Parse(args)
 	setup(*repo)
 	for _, fn := range selectFuncs(*fnPat) {
@@ -201,7 +207,7 @@ func cmdDump(args []string) {
 			if e.Assume != nil {
 				fmt.Printf("  assume %s\n", trunc(e.Assume.String(), 400))
 			} else {
-				fmt.Printf("  OBL %s [%s] guard=%s\n      goal=%s\n", e.Obl.Name, e.Obl.Status, trunc(e.Obl.Guard.String(), 200), trunc(e.Obl.Goal.String(), 400))
+				fmt.Printf("  OBL %s [%s] guard=%s\n      goal=%s\n", e.Obl.Name, e.Obl.Status, trunc(e.Obl.Guard.String(), 200), trunc(e.Obl.Goal.String(), dumpLen))
 			}
 		}
 	}
